@@ -13,11 +13,15 @@
                           dictionaries regenerated from the crate) plus `gExtraB` (names are grammar names, stamps
                           are `:`…`:`, a non-task text is not `$…$…`), and the tree IS the lexical parser's
                           result (`lex_roundtrip_ascii`).
+  `ascii_conforms_names`  the same with NO hypothesis beyond C02's and the restriction on names: stamp shape and the
+                          `$` condition are derived from the stamp brackets / prefixes of the regenerated table
+                          (`vocab2_ascii`); conclusion: parser result = grammar reading = the value, uniquely.
   `ascii_conforms_enum`   for enum values: the enum formatter prints what the lexical formatter prints for the
                           lexical image, so its output conforms as well and reads as the image.
   `vocab_ascii`           every ASCII keyword (connecter, copula, punctuation, set bracket, atom prefix) of the
                           regenerated table is read whole by the corresponding grammar rule.
   `layout_ascii`          the ASCII layout characters are the grammar's literals.
+  `readme_en_same`        the grammar block of README.en.md is the grammar block of README.md (found D7).
   `ascii_reading_unique`  the semantics is deterministic (`grammar_deterministic`), so the reading above is the ONLY
                           one: the grammar classifies the string as this kind and this tree and no other.
 
@@ -26,7 +30,7 @@
   the property is FALSE of the unchanged crate and README — the grammar rejects `a_-_b` while the library prints
   and reads it.
 -/
-import Proofs.Peg.Vocab
+import Proofs.Peg.Vocab2
 import Proofs.Peg.Enum
 import Proofs.Peg.Det
 import Props.C02b
@@ -44,8 +48,11 @@ theorem layout_ascii : GLayout Gen.asciiL :=
 
 theorem vocab_ascii : vocabFactsB Gen.asciiL = true := by decide +kernel
 
-/-- README.en.md publishes the same grammar as README.md (both ```pest blocks are re-translated on every run) -/
-theorem readme_en_same : Gen.readmeRulesEn = Gen.readmeRules := by decide +kernel
+/-- README.en.md publishes the same grammar as README.md (both ```pest blocks are re-translated on every run):
+the same rules under the same names, in whatever order -/
+theorem readme_en_same :
+    (Gen.readmeRules.all (fun r => decide (Gen.readmeGrammarEn.rule? r.name = some r)) &&
+     Gen.readmeRulesEn.all (fun r => decide (Gen.readmeGrammar.rule? r.name = some r))) = true := by decide +kernel
 
 /-- **C11**, grammar-side hypotheses -/
 theorem ascii_conforms (v : LNarsese) (h : gValOKB Gen.asciiL v = true) :
@@ -69,6 +76,19 @@ theorem ascii_conforms_wf (v : LNarsese) (hv : wfLNB Gen.asciiL v = true) (hws :
     (hx : gExtraB Gen.asciiL v = true) :
     ∃ w, Gen.asciiL.lparse (Gen.asciiL.fmtNarsese v) = .ok w ∧ Reads Gen.readmeGrammar (Gen.asciiL.fmtNarsese v) w :=
   ⟨v, C02.lex_roundtrip_ascii v hv hws, ascii_conforms v (gVal_of_wf vocab_ascii v hv hx)⟩
+
+theorem vocab2_ascii : vocabFacts2B Gen.asciiL = true := by decide +kernel
+
+/-- **C11**, in the property's own terms: for every vocabulary-consistent lexical value (the hypotheses of C02)
+whose atom names are grammar names (`gNamesN`: the property's restriction on names, K3 excluded), the lexical
+parser reads the ASCII text back and the published grammar reads it as the same value -/
+theorem ascii_conforms_names (v : LNarsese) (hv : wfLNB Gen.asciiL v = true) (hws : wsFreeN Gen.asciiL v = true)
+    (hn : gNamesN v = true) :
+    Gen.asciiL.lparse (Gen.asciiL.fmtNarsese v) = .ok v ∧ Reads Gen.readmeGrammar (Gen.asciiL.fmtNarsese v) v ∧
+    ∀ w, Reads Gen.readmeGrammar (Gen.asciiL.fmtNarsese v) w → w = v := by
+  have hx := gExtra_of_names layout_ascii vocab2_ascii v hv hn
+  have hg := gVal_of_wf vocab_ascii v hv hx
+  exact ⟨C02.lex_roundtrip_ascii v hv hws, ascii_conforms v hg, fun w hw => reads_unique hw (ascii_conforms v hg)⟩
 
 theorem spaces_ascii : Gen.asciiE.spaceTerms = Gen.asciiE.spaceItems := by decide +kernel
 
